@@ -45,3 +45,22 @@ Print Assumptions c17_independent_decoder_recovers.
 
 Example c17_crc_check_value : crc32c [49;50;51;52;53;54;55;56;57] = 0xE3069283.
 Proof. exact crc32c_check. Qed.
+
+(* ---- the batch a NEW batch is written as is read back by kio's own reader (as modelled), with any
+   bytes following it (Records/NewBatchRoundtrip.v): what write_new_batch emits is exactly
+   write_prepared_batch of the batch whose header it derives, that batch is well formed
+   (prepared_core), and read_batch returns it - record timestamps floored to whole seconds, which is
+   the recorded known finding of C18. *)
+From KioV Require Import Records.BatchRoundtrip Records.NewBatchRoundtrip.
+
+Theorem c17_new_batch_is_the_derived_prepared_batch : forall nb bs first,
+  hd_error (n_records nb) = Some first -> write_new_batch nb = Ok bs ->
+  write_prepared_batch (batch_of_new nb first) = Ok bs.
+Proof. exact write_new_is_write_prepared. Qed.
+Print Assumptions c17_new_batch_is_the_derived_prepared_batch.
+
+Theorem c17_own_reader_recovers : forall nb bs first tl,
+  hd_error (n_records nb) = Some first -> new_batch_ok nb = true -> write_new_batch nb = Ok bs ->
+  read_batch (bs ++ tl) = Ok (floor_seconds (batch_of_new nb first), tl).
+Proof. exact read_write_new_batch. Qed.
+Print Assumptions c17_own_reader_recovers.
